@@ -258,12 +258,12 @@ def r2g_case(lo, hi, tag, ver=4):
 def interval_cases(rng, mult):
     out = []
     # glob-shaped
-    for _ in range(150 * mult):
+    for _ in range(500 * mult):
         lo, hi = spec_glob(valid_glob_str(rng))
         out.append(r2g_case(lo, hi, 'shaped'))
     # CIDR blocks of every prefix, and the same widened / narrowed by one at either end
     for p in range(33):
-        for _ in range(2 * mult):
+        for _ in range(6 * mult):
             size = 1 << (32 - p)
             first = (rand32(rng) >> (32 - p)) << (32 - p) if p else 0
             last = first + size - 1
@@ -272,10 +272,10 @@ def interval_cases(rng, mult):
                 lo, hi = first + dlo, last + dhi
                 if 0 <= lo <= hi <= M32:
                     out.append(r2g_case(lo, hi, 'block+-1'))
-    for _ in range(250 * mult):
+    for _ in range(1000 * mult):
         a, b = sorted((rand32(rng), rand32(rng)))
         out.append(r2g_case(a, b, 'random'))
-    for _ in range(60 * mult):
+    for _ in range(300 * mult):
         a = rand32(rng)
         b = min(M32, a + rng.choice([0, 1, 2, 254, 255, 256, 257, 65535, 65536, rng.randrange(0, 70000)]))
         out.append(r2g_case(a, b, 'short'))
@@ -288,7 +288,7 @@ def interval_cases(rng, mult):
 def c2g_cases(rng, mult):
     out = []
     for p in range(33):
-        for _ in range(4 * mult):
+        for _ in range(12 * mult):
             v = rand32(rng)
             out.append(Case('cidr2glob N:4:%d:%d' % (v, p), 'c2g/v4', ('c2g', 4, v, p)))
     for _ in range(8):
@@ -405,18 +405,18 @@ def generate(rng, tier):
     # every shape, valid
     for nlit in range(5):
         for hyph in (False, True):
-            for _ in range(25 * mult):
+            for _ in range(300 * mult):
                 add_glob(valid_glob_str(rng, nlit, hyph))
-    base = [valid_glob_str(rng) for _ in range(220 * mult)]
+    base = [valid_glob_str(rng) for _ in range(800 * mult)]
     for s in base:
         add_glob(s)
         for e in edits(rng, s, 5):
             add_glob(e)
-    for _ in range(1500 * mult):
+    for _ in range(6000 * mult):
         add_glob(near_miss_glob(rng))
     # octets from the literals of the current source
     lits = [v for v in harvest_literals() if v <= 300]
-    for _ in range(60 * mult):
+    for _ in range(300 * mult):
         a, b = rng.choice(lits), rng.choice(lits)
         add_glob('%d.%d.%d-%d.*' % (rng.choice(lits), rng.choice(lits), a, b))
         add_glob('10.0.%d.%d' % (a, b))
@@ -439,13 +439,13 @@ def generate(rng, tier):
         nseen.add(s)
         cases.extend(nmap_cases(s))
 
-    nbase = [nmap_spec(rng) for _ in range(700 * mult)]
+    nbase = [nmap_spec(rng) for _ in range(2500 * mult)]
     for s in nbase:
         add_nmap(s)
-    for s in rng.sample(nbase, 150 * mult):
+    for s in rng.sample(nbase, 500 * mult):
         for e in edits(rng, s, 2):
             add_nmap(e)
-    for _ in range(25 * mult):
+    for _ in range(300 * mult):
         ss = tuple('%d.%d.' % (_oct(rng), _oct(rng)) + '.'.join(nmap_octet(rng) for _ in range(rng.choice([2, 2, 2, 2, 1])))
                    for _ in range(rng.randrange(0, 4)))
         if any(len((ref_nmap(s, FUEL + 1) + ([],))[2]) > FUEL for s in ss):
